@@ -122,6 +122,10 @@ def install(P):
     def _code(ctx, c):
         return Some(deref(c.args[0]).data)
 
+    @P.summary("thread::panicking", "panicking")
+    def _panicking(ctx, c):
+        return bool(getattr(ctx, "unwinding", None)) or getattr(ctx, "py_unwinding", 0) > 0
+
     @P.summary("String::from_utf8_lossy", "<impl str>::from_utf8_lossy")
     def _lossy(ctx, c):
         return sval(c.args[0])
